@@ -13,6 +13,8 @@ CONSTANTS
   HasForce = TRUE
   DecayMax = 0
   DecayEvery = 1
+  Split = FALSE
+  MaxBurst = 2
   Profile = 1
   Prot2 = {}
   Prot1 = {}
@@ -24,4 +26,4 @@ INIT Init
 NEXT Next
 VIEW View
 INVARIANTS TypeOK Shape CountExact ValueExact
-PROPERTIES NoProtected NoGrace LowestFirst NothingBelowLow LeavesAtMostLow ForceTrimOrder TrimInert
+PROPERTIES NoProtected NoGrace LowestFirst NothingBelowLow LeavesAtMostLow ForceTrimOrder TrimInert SelectInert
